@@ -592,16 +592,18 @@ auto harris_michael_hash_map<Key, Value, Policies...>::do_get_or_emplace_lazy(Ke
     }
 
     // Try to install new node
+    // info.cur keeps protecting the successor until the CAS has been decided (as in emplace_or_get); otherwise the
+    // successor could be reclaimed and its address reused in the meantime, and the CAS would succeed erroneously (ABA).
     marked_ptr cur = info.cur.get();
-    info.cur.reset();
-    info.cur = guard_ptr(n);
     n->next.store(cur, std::memory_order_relaxed);
+    guard_ptr new_guard(n);
     XENIUM_VERIF_POINT("harris_michael_hash_map.get_or_emplace_lazy.before_link_cas");
 
     // (9) - this release-CAS synchronizes with the acquire-load (1, 2, 3, 4, 5, 6, 7, 13)
     //       and the acquire-CAS (11, 14)
     //       it is the head of a potential release sequence containing (11, 14)
     if (info.prev->compare_exchange_weak(cur, n, std::memory_order_release, std::memory_order_relaxed)) {
+      info.cur = std::move(new_guard);
       return {iterator(this, bucket, std::move(info)), true};
     }
 
